@@ -454,7 +454,7 @@ impl<T: Send> Future for SchedulerFuture<T> {
                 let run_action = {
                     let mut core = self.queue.core.lock().expect("JobQueue core lock");
 
-                    match core.state {
+                    let run_action = match core.state {
                         QueueState::Running                     => SchedulerAction::WaitForCompletion,
                         QueueState::WaitingForWake              => SchedulerAction::WaitForCompletion,
                         QueueState::WaitingForUnpark            => SchedulerAction::WaitForCompletion,
@@ -472,7 +472,17 @@ impl<T: Send> Future for SchedulerFuture<T> {
                                 SchedulerAction::WaitForCompletion
                             }
                         },
+                    };
+
+                    // Whoever is running the queue may hand it back before it has reached our job, and there might be no thread to pick it
+                    // up at that point: ask to be polled again when that happens, so this future can run the queue itself if need be
+                    if let SchedulerAction::WaitForCompletion = run_action {
+                        if !core.wake_futures.iter().any(|waker| waker.will_wake(context.waker())) {
+                            core.wake_futures.push(context.waker().clone());
+                        }
                     }
+
+                    run_action
                 };
 
                 // Wake up the calling context when the result becomes available
